@@ -3846,6 +3846,7 @@ func (p *Parser) parseAlterChangeStream(pos token.Pos) *ast.AlterChangeStream {
 			}
 			return cs
 		}
+		p.panicfAtToken(&p.Token, "expected SET FOR or SET OPTIONS")
 	} else if p.Token.IsKeywordLike("DROP") {
 		droppos := p.Token.Pos
 		p.nextToken()
